@@ -72,7 +72,44 @@ class T:
 
 def transitions(ctx, which, model=None):
     ex = (model or ctx.model).machine(which)
-    return ex, [T(ex, t) for t in ex.transitions]
+    ts = [T(ex, t) for t in ex.transitions]
+    if model is None and not ctx.extra.get('_separation_checked'):
+        ctx.extra['_separation_checked'] = True
+        _separation(ctx)
+    return ex, ts
+
+
+def interference(ctx):
+    """stores of one machine into the fields of the other, outside the release request (the helper that
+    cat_hold_exit itself runs): list of (which machine, transition, event)"""
+    from .graph import Index
+    m = ctx.model
+    release = Index(m.prog).reachable('cat_hold_exit') | {'cat_hold_exit'}
+    out = []
+    for which in ('cmd', 'evt'):
+        ex = m.machine(which)
+        for t in ex.transitions:
+            for e in trace_events(t['trace']):
+                if e['k'] == 'st' and not ex.own(e['loc']) and e['loc'][0] == 'S':
+                    if e.get('via') is None and e.get('fn') in release:
+                        continue
+                    out.append((which, T(ex, t), e))
+    return out
+
+
+def _separation(ctx):
+    """The two machines are analysed separately: a step of one is, for the other, a step that leaves its
+    fields alone (apart from the release request, whose code is interpreted as an environment action).
+    Every verdict about one machine rests on that.  C11 reports a breach as a violation of its own
+    statement; for any other property a breach means that no verdict can be given."""
+    bad = interference(ctx)
+    ctx.instance('separation', sum(len(ctx.model.machine(w).transitions) for w in ('cmd', 'evt')))
+    if bad and ctx.pid != 'C11':
+        which, t, e = bad[0]
+        # the property's own rules still run and may report; a clean result, however, is not a verdict (cli)
+        ctx.extra['_separation_breach'] = ('the machines are not separable on this tree: the %s machine stores %s of the other machine at %s '
+                                           '(reported as a violation by C11); a clean per-machine analysis of %s is not a verdict'
+                                           % (which, '.'.join(map(str, e['loc'][1:])), t.site(e), ctx.pid))
 
 
 def ring_models(ctx):
@@ -390,6 +427,8 @@ def c11(ctx):
     us = m.prog.enum_types['cat_unsolicited_state']['consts']
     FL, UFL = st['CAT_STATE_FLUSH_IO_WRITE'], us['CAT_UNSOLICITED_STATE_FLUSH_IO_WRITE']
     ctx.assume('an event handler does not return HOLD (O1); handlers keep the buffer NUL-terminated inside max_data_size')
+    from .graph import Index
+    release_fns = Index(m.prog).reachable('cat_hold_exit') | {'cat_hold_exit'}
     for which in ('cmd', 'evt'):
         ex, ts = transitions(ctx, which)
         my_state = ('S', 'state') if which == 'cmd' else ('S', 'unsolicited_fsm', 'state')
@@ -423,8 +462,12 @@ def c11(ctx):
                 if e['k'] == 'wr' and e['region'][0] in ('BUF', 'BUFHI', 'UBUF'):
                     ctx.check('stable-source', e['region'] in mine, t.site(e),
                               'the %s machine writes into %s' % (which, e['region']))
-                if e['k'] == 'st' and not ex.own(e['loc']) and e['loc'] != ('S', 'hold_exit_status') and e.get('via') is None:
-                    ctx.check('stable-source', False, t.site(e), 'the %s machine stores %s of the other machine' % (which, '.'.join(map(str, e['loc'][1:]))))
+                if e['k'] == 'st' and not ex.own(e['loc']) and e['loc'][0] == 'S':
+                    # (the release request - the helper cat_hold_exit itself runs - is the documented channel
+                    # between the machines; what it does is C14's subject)
+                    ok = e.get('via') is None and e.get('fn') in release_fns
+                    ctx.check('stable-source', ok, t.site(e), 'the %s machine stores %s of the other machine%s'
+                              % (which, '.'.join(map(str, e['loc'][1:])), ' (through a pointer handed to the %s handler)' % e['via'] if e.get('via') else ''))
             # apart from the arbitration state (and, for events, the line-ending and hold flags) a machine
             # does not look at the other machine's fields: its units do not depend on the other's progress
             allowed_reads = ({('S', 'unsolicited_fsm', 'state'), ('S', 'unsolicited_fsm', 'unsolicited_cmd_buffer_items_count')} if which == 'cmd' else
